@@ -146,9 +146,7 @@ func (c *Ctx) viewsOfDecodeBuffer() {
 		if fn.Pkg == nil || fn.Pkg.Pkg.Path() != pkgMessage || fn.Signature.Recv() == nil || fn.Parent() != nil {
 			continue
 		}
-		switch fn.Name() {
-		case "Decode", "decode", "decodeMessage":
-		default:
+		if !c.decoderLike(fn, 0) {
 			continue
 		}
 		var src ssa.Value
@@ -159,6 +157,43 @@ func (c *Ctx) viewsOfDecodeBuffer() {
 		}
 		if src == nil {
 			continue
+		}
+		// a helper of a decoder (decodePacketID(src, total)): what it is handed must itself be the caller's input
+		handedInput := true
+		switch fn.Name() {
+		case "Decode", "decode", "decodeMessage":
+		default:
+			idx := -1
+			for i, p := range fn.Params {
+				if ssa.Value(p) == src {
+					idx = i
+				}
+			}
+			for _, site := range c.P.Callers(fn) {
+				var csrc ssa.Value
+				for _, p := range site.Parent().Params {
+					if _, ok := p.Type().Underlying().(*types.Slice); ok {
+						csrc = p
+					}
+				}
+				a := ir.SeeThrough(site.Common().Args[idx])
+				for i := 0; i < 4; i++ {
+					if sl, ok := a.(*ssa.Slice); ok {
+						a = ir.SeeThrough(sl.X)
+						continue
+					}
+					break
+				}
+				if csrc == nil || a != csrc {
+					handedInput = false
+				}
+			}
+		}
+		// a decoder that goes through the setter gives the message a private identifier buffer
+		for _, call := range c.calls(fn, pkgMessage, "header", "SetPacketID") {
+			n++
+			c.R.Bad("T3-dirty-discipline", fmt.Sprintf("%s:packetID-is-view-of-input", fname(fn)), c.P.InstrPos(call),
+				"the decoder sets the packet identifier through SetPacketID, which allocates a private two-byte buffer instead of keeping a sub-slice of the input: a later SetPacketID on the decoded message changes that private buffer without marking the message dirty, and Encode still sends the old identifier from the decode buffer")
 		}
 		for _, b := range fn.Blocks {
 			for _, in := range b.Instrs {
@@ -183,7 +218,7 @@ func (c *Ctx) viewsOfDecodeBuffer() {
 						break
 					}
 					if ir.SeeThrough(sl.X) == src {
-						isView = true
+						isView = handedInput
 						break
 					}
 					v = ir.SeeThrough(sl.X)
@@ -495,6 +530,27 @@ func (c *Ctx) lenOrdering() {
 				hl = call
 			}
 		}
+		// both steps moved into one helper (header.lenWithBody(ml)): the order is decided there
+		if hl == nil {
+			for _, call := range ir.Calls(fn) {
+				h := call.Common().StaticCallee()
+				if h == nil || h.Blocks == nil || h.Pkg == nil || h.Pkg.Pkg.Path() != pkgMessage {
+					continue
+				}
+				var s2, h2 ssa.CallInstruction
+				for _, c2 := range ir.Calls(h) {
+					if ir.IsMethod(c2.Common(), pkgMessage, "header", "SetRemainingLength") {
+						s2 = c2
+					}
+					if ir.IsMethod(c2.Common(), pkgMessage, "header", "msglen") {
+						h2 = c2
+					}
+				}
+				if s2 != nil && h2 != nil {
+					set, hl = s2, h2
+				}
+			}
+		}
 		if set == nil || hl == nil {
 			continue
 		}
@@ -530,6 +586,30 @@ func (c *Ctx) typeTables() {
 		if fn == nil {
 			c.R.Unresolved("message.Type." + x.name)
 			continue
+		}
+		// DefaultFlags is a function of the type value alone: decided by constant propagation for each of the 16
+		// values (however it is written: switch, if-chain, table of comparisons)
+		if x.name == "DefaultFlags" {
+			var wrong []string
+			decided := true
+			for k := x.from; k <= x.to; k++ {
+				got, ok := evalSmallIntFunc(fn, k)
+				if !ok {
+					decided = false
+					break
+				}
+				want := int64(0)
+				if k == 6 || k == 8 || k == 10 {
+					want = 2
+				}
+				if got != want {
+					wrong = append(wrong, fmt.Sprintf("%s -> %d (MQTT: %d)", typeNames[k], got, want))
+				}
+			}
+			if decided {
+				c.R.Check(len(wrong) == 0, ruleT1, "Type."+x.name+":covers-all-types", c.P.Pos(fn.Pos()), "2 for PUBREL, SUBSCRIBE, UNSUBSCRIBE and 0 for every other type value (evaluated for 0..15)", "Type.DefaultFlags yields the wrong fixed-header flags: "+strings.Join(wrong, ", "))
+				continue
+			}
 		}
 		cs := caseConsts(fn)
 		var missing []string
@@ -685,6 +765,49 @@ func (c *Ctx) willFlagSiblings() {
 								ok = true
 							} else {
 								detail = "the will flag is cleared when len(" + field + ") == 0, i.e. depending on the field that was just assigned, not on the other will field"
+							}
+						}
+					}
+				}
+			}
+		}
+		// the rule moved into a helper shared by the two setters (updateWillFlag(v, other)): the guard tests a
+		// parameter; what matters is which field this setter passes for it
+		if !ok {
+			for _, site := range ir.Calls(fn) {
+				h := site.Common().StaticCallee()
+				if h == nil || h.Blocks == nil || recvNamed(h) != "ConnectMessage" || h == fn || h.Name() == "SetWillFlag" {
+					continue
+				}
+				for _, call := range ir.Calls(h) {
+					if !ir.IsMethod(call.Common(), pkgMessage, "ConnectMessage", "SetWillFlag") || !isConstBool(call.Common().Args[1], false) {
+						continue
+					}
+					for d := call.Block(); d.Idom() != nil; d = d.Idom() {
+						id := d.Idom()
+						iff, isIf := id.Instrs[len(id.Instrs)-1].(*ssa.If)
+						if !isIf {
+							continue
+						}
+						for idx, sblk := range id.Succs {
+							if !(sblk == d || sblk.Dominates(d) && len(sblk.Preds) == 1) {
+								continue
+							}
+							a, t := edgeAtom(iff, idx)
+							if !t || !strings.HasPrefix(a, "eq:len(") || !strings.HasSuffix(a, "):0") {
+								continue
+							}
+							pname := strings.TrimSuffix(strings.TrimPrefix(a, "eq:len("), "):0")
+							for i, prm := range h.Params {
+								if prm.Name() != pname || i >= len(site.Common().Args) {
+									continue
+								}
+								ap := ir.PathOf(site.Common().Args[i])
+								if len(ap.Fields) > 0 && ap.Fields[len(ap.Fields)-1] == x.other {
+									ok = true
+								} else if len(ap.Fields) > 0 {
+									detail = "the helper " + h.Name() + " clears the will flag when the field passed as '" + pname + "' is empty, and " + x.fn + " passes " + ap.Fields[len(ap.Fields)-1] + ", the field that was just assigned, not the other will field"
+								}
 							}
 						}
 					}
@@ -933,4 +1056,136 @@ func (c *Ctx) isCodecInternal(fn *ssa.Function, d int) bool {
 		}
 	}
 	return n > 0
+}
+
+// decoderLike: fn is a decoder (Decode / decode / decodeMessage) or an unexported method with a byte-slice
+// parameter that only decoders call (a piece of a decoder moved into a helper).
+func (c *Ctx) decoderLike(fn *ssa.Function, d int) bool {
+	switch fn.Name() {
+	case "Decode", "decode", "decodeMessage":
+		return true
+	}
+	if d > 1 || fn.Object() == nil || fn.Object().Exported() || fn.Signature.Recv() == nil {
+		return false
+	}
+	hasSlice := false
+	for _, p := range fn.Params[1:] {
+		if sl, ok := p.Type().Underlying().(*types.Slice); ok {
+			if bt, ok := sl.Elem().Underlying().(*types.Basic); ok && bt.Kind() == types.Uint8 {
+				hasSlice = true
+			}
+		}
+	}
+	sites := c.P.Callers(fn)
+	if !hasSlice || len(sites) == 0 {
+		return false
+	}
+	for _, s := range sites {
+		if !c.decoderLike(s.Parent(), d+1) {
+			return false
+		}
+	}
+	return true
+}
+
+// evalSmallIntFunc evaluates a function of one small integer parameter (the receiver) for the value k by constant
+// propagation through its control-flow graph: only comparisons of the parameter with constants, boolean
+// connectives, phis and constant returns are understood; anything else makes the result unknown.
+func evalSmallIntFunc(fn *ssa.Function, k int64) (int64, bool) {
+	if len(fn.Params) != 1 || len(fn.Blocks) == 0 {
+		return 0, false
+	}
+	env := map[ssa.Value]constant.Value{fn.Params[0]: constant.MakeInt64(k)}
+	val := func(v ssa.Value) (constant.Value, bool) {
+		if c, ok := v.(*ssa.Const); ok {
+			if c.Value == nil {
+				return nil, false
+			}
+			return c.Value, true
+		}
+		x, ok := env[v]
+		return x, ok
+	}
+	var prev *ssa.BasicBlock
+	b := fn.Blocks[0]
+	for steps := 0; steps < 200; steps++ {
+		for _, in := range b.Instrs {
+			switch x := in.(type) {
+			case *ssa.Phi:
+				for i, p := range b.Preds {
+					if p == prev {
+						if v, ok := val(x.Edges[i]); ok {
+							env[x] = v
+						}
+					}
+				}
+			case *ssa.BinOp:
+				a, ok1 := val(x.X)
+				bb, ok2 := val(x.Y)
+				if !ok1 || !ok2 {
+					continue
+				}
+				switch x.Op {
+				case token.EQL, token.NEQ, token.LSS, token.LEQ, token.GTR, token.GEQ:
+					if a.Kind() == constant.Bool || bb.Kind() == constant.Bool {
+						if x.Op == token.EQL || x.Op == token.NEQ {
+							env[x] = constant.MakeBool((constant.BoolVal(a) == constant.BoolVal(bb)) == (x.Op == token.EQL))
+						}
+						continue
+					}
+					env[x] = constant.MakeBool(constant.Compare(constant.ToInt(a), x.Op, constant.ToInt(bb)))
+				case token.AND, token.OR, token.ADD, token.SUB:
+					if a.Kind() == constant.Int && bb.Kind() == constant.Int {
+						env[x] = constant.BinaryOp(a, x.Op, bb)
+					}
+				}
+			case *ssa.UnOp:
+				if x.Op == token.NOT {
+					if a, ok := val(x.X); ok && a.Kind() == constant.Bool {
+						env[x] = constant.MakeBool(!constant.BoolVal(a))
+					}
+				}
+			case *ssa.Convert:
+				if a, ok := val(x.X); ok {
+					env[x] = a
+				}
+			case *ssa.ChangeType:
+				if a, ok := val(x.X); ok {
+					env[x] = a
+				}
+			case *ssa.If:
+				cv, ok := val(x.Cond)
+				if !ok || cv.Kind() != constant.Bool {
+					return 0, false
+				}
+				prev = b
+				if constant.BoolVal(cv) {
+					b = b.Succs[0]
+				} else {
+					b = b.Succs[1]
+				}
+			case *ssa.Jump:
+				prev = b
+				b = b.Succs[0]
+			case *ssa.Return:
+				if len(x.Results) != 1 {
+					return 0, false
+				}
+				rv, ok := val(x.Results[0])
+				if !ok {
+					return 0, false
+				}
+				n, exact := constant.Int64Val(constant.ToInt(rv))
+				return n, exact
+			case *ssa.DebugRef:
+			default:
+				// calls, loads, stores: not a pure function of the parameter
+				if _, isVal := in.(ssa.Value); isVal {
+					continue // its value stays unknown; only matters if it is used
+				}
+				return 0, false
+			}
+		}
+	}
+	return 0, false
 }
